@@ -83,6 +83,8 @@ def projectSlice (s : PState) (d : Doc) (path : String) (v : V) : Res PState :=
 def firstElemMatch (sch : SchemaEval) (query : Doc) : List V → Res (Option V)
   | [] => .ok none
   | item :: r =>
+    -- a query on fields only (no operators) applies to embedded documents only
+    if (query.all fun (k, _) => !isOpKey k) && !item.isDoc then firstElemMatch sch query r else
     match mProcess sch [("item", item)] query "item" false with
     | .error .notMatched => firstElemMatch sch query r
     | .error e => .error e
